@@ -104,9 +104,10 @@ func c12R1(c *Ctx, r *Report) {
 	}
 	// session paths
 	for _, s := range []struct {
-		fn  string
-		idx int
-	}{{"(*auth.Authenticator).AuthenticateCookie", 0}, {"(*auth.Authenticator).GetSession", 1}} {
+		fn      string
+		idx     int
+		disable bool // the disabled-account check is required in this function
+	}{{"(*auth.Authenticator).AuthenticateCookie", 0, true}, {"(*auth.Authenticator).GetSession", 1, false}} {
 		fn := c.Func(s.fn)
 		if fn == nil {
 			r.Fail("C12-R1", "anchor "+s.fn, "-", "function not found")
@@ -143,23 +144,50 @@ func c12R1(c *Ctx, r *Report) {
 			}
 			return false
 		})
-		// disabled check edges
-		var notDis []Edge
-		for _, call := range c.Calls(fn, false, func(n string) bool { return n == "(auth.User).Disabled" || n == "(*auth.userImpl).Disabled" }) {
-			cv := valueOfCall(call)
-			_, neg := EdgesOnValue(fn, func(v ssa.Value) bool { return v == cv })
-			notDis = append(notDis, neg...)
-		}
+		notDis := c12NotDisabledEdges(c, fn)
 		for i, ret := range userYieldingReturns(fn, s.idx) {
 			base := fmt.Sprintf("fn=%s user-exit #%d", s.fn, i+1)
 			r.Check("C12-R1", base+" after=session-epoch-equals-user-epoch", c.Pos(ret.Pos()), len(eq) > 0 && DominatedBy(fn, ret, NewAvoid().AddEdge(eq...)),
 				"dominated by SessionUUID == user.GetSessionUUID()", "a session issued before a password change (different epoch) can authenticate")
 			r.Check("C12-R1", base+" after=user-exists", c.Pos(ret.Pos()), len(nn) > 0 && DominatedBy(fn, ret, NewAvoid().AddEdge(nn...)),
 				"dominated by user != nil", "a session of a deleted user can authenticate")
-			r.Check("C12-R1", base+" after=not-disabled", c.Pos(ret.Pos()), len(notDis) > 0 && DominatedBy(fn, ret, NewAvoid().AddEdge(notDis...)),
-				"dominated by !user.Disabled()", "the session path never tests user.Disabled(): a session created before the account was disabled still authenticates (the password path rejects disabled accounts)")
+			if s.disable {
+				r.Check("C12-R1", base+" after=not-disabled", c.Pos(ret.Pos()), len(notDis) > 0 && DominatedBy(fn, ret, NewAvoid().AddEdge(notDis...)),
+					"dominated by !user.Disabled()", "the session path never tests user.Disabled(): a session created before the account was disabled still authenticates (the password path rejects disabled accounts)")
+			}
 		}
 	}
+	// one-time session path: yields the user GetSession validated, only if not disabled
+	if fn := c.Func("(*auth.Authenticator).AuthenticateOneTimeSession"); fn == nil {
+		r.Fail("C12-R1", "anchor (*auth.Authenticator).AuthenticateOneTimeSession", "-", "function not found")
+	} else {
+		var okEdges []Edge
+		for _, call := range c.Calls(fn, false, nameIs("(*auth.Authenticator).GetSession")) {
+			ev := errValueOf(call.(*ssa.Call))
+			_, neg := EdgesOnValue(fn, func(v ssa.Value) bool { return unwrapLoadFree(v) == ev })
+			okEdges = append(okEdges, neg...)
+		}
+		notDis := c12NotDisabledEdges(c, fn)
+		for i, ret := range userYieldingReturns(fn, 0) {
+			base := fmt.Sprintf("fn=(*auth.Authenticator).AuthenticateOneTimeSession user-exit #%d", i+1)
+			fromGS := DependsOn(ret.Results[0], c.ResultOf(1, nameIs("(*auth.Authenticator).GetSession")))
+			r.Check("C12-R1", base+" after=GetSession-validated", c.Pos(ret.Pos()), fromGS && len(okEdges) > 0 && DominatedBy(fn, ret, NewAvoid().AddEdge(okEdges...)),
+				"user is the one GetSession validated, on its success edge", "a user is returned that GetSession did not validate")
+			r.Check("C12-R1", base+" after=not-disabled", c.Pos(ret.Pos()), len(notDis) > 0 && DominatedBy(fn, ret, NewAvoid().AddEdge(notDis...)),
+				"dominated by !user.Disabled()", "the one-time session path never tests user.Disabled(): a session created before the account was disabled still authenticates")
+		}
+	}
+}
+
+// c12NotDisabledEdges: branch edges of fn on which a Disabled() result is known false.
+func c12NotDisabledEdges(c *Ctx, fn *ssa.Function) []Edge {
+	var notDis []Edge
+	for _, call := range c.Calls(fn, false, func(n string) bool { return n == "(auth.User).Disabled" || n == "(*auth.userImpl).Disabled" }) {
+		cv := valueOfCall(call)
+		_, neg := EdgesOnValue(fn, func(v ssa.Value) bool { return v == cv })
+		notDis = append(notDis, neg...)
+	}
+	return notDis
 }
 
 func c12R2(c *Ctx, r *Report) {
